@@ -23,18 +23,20 @@ class C08Mixin(object):
         return out
 
     def _fingerprint(self):
-        """Sizes of the identity caches and of the table registry."""
-        core = self.core
+        """Sizes of the identity caches and of the table registry (read defensively: the cache
+        attributes are internals, a tree that renames them just gets a coarser fingerprint)."""
         fp = {}
-        for name, t in core.PRIVATE_TABLES.items():
-            ne = len(t._element)
+        for name, t in self._registry().items():
+            els = list(getattr(t, "_element", {}).values()) or list(t)
             ni = nq = 0
-            for el in t._element.values():
-                ni += len(el._isotopes)
-                nq += len(el.ion.ionset)
-                for iso in el._isotopes.values():
-                    nq += len(iso.ion.ionset)
-            fp[name] = [ne, ni, nq]
+            for el in els:
+                isos = getattr(el, "_isotopes", None)
+                isos = list(isos.values()) if isinstance(isos, dict) else list(el)
+                ni += len(isos)
+                nq += len(getattr(getattr(el, "ion", None), "ionset", ()))
+                for iso in isos:
+                    nq += len(getattr(getattr(iso, "ion", None), "ionset", ()))
+            fp[name] = [len(els), ni, nq]
         return fp
 
     def _lookup(self, tbl, route, arg):
@@ -175,7 +177,8 @@ class C08Mixin(object):
 
         els = list(t)
         nums = [e.number for e in els]
-        chk(nums == sorted(set(nums)) and len(nums) == len(t._element), "iter(T) not strictly increasing")
+        chk(nums == sorted(set(nums)) and len(nums) == len(getattr(t, "_element", nums)),
+            "iter(T) not strictly increasing")
         if zs is not None:
             els = [t[z] for z in zs]
         tname = tbl
